@@ -6,6 +6,7 @@
 #include <chrono>
 #include <condition_variable>
 #include <mutex>
+#include <igris/util/verif_hook.h>
 
 namespace igris
 {
@@ -20,7 +21,18 @@ namespace igris
         inline void wait() const
         {
             std::unique_lock<std::mutex> _lock(m_mutex);
+#ifdef IGRIS_VERIF
+            IGRIS_VERIF_POINT("ev_wlock", this, m_bFlag);
+            m_condition.wait(_lock,
+                             [&]() -> bool
+                             {
+                                 IGRIS_VERIF_POINT("ev_test", this, m_bFlag);
+                                 return m_bFlag;
+                             });
+            IGRIS_VERIF_POINT("ev_wdone", this, m_bFlag);
+#else
             m_condition.wait(_lock, [&]() -> bool { return m_bFlag; });
+#endif
         }
 
         template <typename R, typename P>
@@ -37,9 +49,13 @@ namespace igris
         {
             bool bWasSignalled;
             m_mutex.lock();
+            IGRIS_VERIF_POINT("ev_slock", this, 0);
             bWasSignalled = m_bFlag;
             m_bFlag = true;
+            IGRIS_VERIF_POINT("ev_set", this, 0);
+            IGRIS_VERIF_POINT("ev_sunlock", this, 0);
             m_mutex.unlock();
+            IGRIS_VERIF_POINT("ev_notify", this, 0);
             m_condition.notify_all();
             return bWasSignalled == false;
         }
